@@ -444,4 +444,12 @@ def do_replay(mod, path):
 
 
 if __name__ == '__main__':
-    sys.exit(main())
+    try:
+        rc = main()
+    except SystemExit:
+        raise
+    except BaseException:
+        # a crash of the harness itself is never a verdict about the property
+        print('HARNESS-ERROR: uncaught exception in the runner:\n' + traceback.format_exc())
+        rc = 2
+    sys.exit(rc)
